@@ -734,8 +734,12 @@ func (r *c17BFRunner) run(workers int, fault string, k int, seed uint64, mode st
 		lastActive atomic.Int64
 		db         = &c17DB{tx: &c17Tx{}}
 	)
+	// database ids of the synthetic segments come from one of the id alphabets (collisions mod 2^32 / 2^16, ids >= 2^63)
+	al := c17IDAlphabet(seed % c17Alphabets)
+	index := make(map[graph.ID]int, len(nodes))
 	for i := range nodes {
-		nodes[i] = graph.NewNode(graph.ID(i), graph.NewProperties(), kind)
+		nodes[i] = graph.NewNode(graph.ID(al.id(i)), graph.NewProperties(), kind)
+		index[nodes[i].ID] = i
 	}
 	baseline := c17Baseline()
 	ctx, cancel := context.WithCancel(context.Background())
@@ -753,7 +757,7 @@ func (r *c17BFRunner) run(workers int, fault string, k int, seed uint64, mode st
 	driver := func(dctx context.Context, tx graph.Transaction, seg *graph.PathSegment) ([]*graph.PathSegment, error) {
 		inflight.Add(1)
 		defer func() { lastActive.Store(time.Now().UnixNano()); inflight.Add(-1) }()
-		id := int(seg.Node.ID)
+		id := index[seg.Node.ID]
 		n := int(started.Add(1))
 		callLock.Lock()
 		calls = append(calls, id)
@@ -781,7 +785,7 @@ func (r *c17BFRunner) run(workers int, fault string, k int, seed uint64, mode st
 		}
 		out := make([]*graph.PathSegment, 0, len(tree.kids[id]))
 		for _, c := range tree.kids[id] {
-			rel := graph.NewRelationship(graph.ID(c), graph.ID(id), graph.ID(c), nil, kind)
+			rel := graph.NewRelationship(graph.ID(al.id(c)), nodes[id].ID, nodes[c].ID, nil, kind)
 			if mode == "descend" {
 				out = append(out, seg.Descend(nodes[c], rel))
 			} else {
